@@ -33,7 +33,8 @@ FAMILY = {
     'fixed': msg({'x': 'N', 'e0': arr('N', 0), 'e1': arr('N', 1), 'e3': arr('N', 3), 'mm': arr(arr('N', 2), 2)}),
     'deep': msg({'x': 'N', 'm': msg({'n': msg({'o': msg({'z': 'N', 'zs': arr('N')})})})}),
 }
-QUICK_SCHEMAS = ('flat', 'arrays', 'nested', 'msgarrays')
+FAMILY['kwnames'] = msg({'ERROR': 'N', 'INFO': 'N', 'PIN': 'N', 'Elapsed': 'N', 'NANOS': 'N', 'notes': 'B', 'android': 'B', 'inner': 'N', 'total': 'N', 'ask': 'B', 'order': 'S', 'nodes': arr('N'), 'Truth': 'B'})
+QUICK_SCHEMAS = ('flat', 'arrays', 'nested', 'msgarrays', 'kwnames')
 ALL_SCHEMAS = tuple(FAMILY)
 
 BASE = {'B': 'BOOL', 'N': 'NUMBER', 'S': 'STRING'}
